@@ -33,6 +33,16 @@ CLAIMS = {
        "Not decided: that later requests succeed.",
   note="Trusted: clang AST/CFG. Intraprocedural per failure point; the empty lockset at the failing call is C05/L1.",
   design_ref="DESIGN.md §3 C04, §2 N"),
+ "C11": dict(
+  technique="static analysis: guard conformance, lockset, post-callback typestate, dominating-branch facts, atomic order chain table",
+  text="Decides structural clauses of C11 on qs_agent/qs_domain/lock_guard: the domain guard releases via unlock(); every "
+       "store to the period counter, reset of the ack count and write of the agent count is under the domain mutex; in "
+       "run() the node is unlinked and reset before the callback and nothing touches it afterwards; the callback is "
+       "dominated by (acquire-loaded counter >= target) and nodes leave from the front; both barrier entry points use one "
+       "period offset K>=2 and only raise the desired counter; the ack is an acq_rel RMW, period stores are release, "
+       "consuming loads acquire. It does not decide the counting protocol over interleavings or fairness.",
+  note="Trusted: clang AST/CFG; std::atomic member calls resolved to (object path, operation, evaluated memory order).",
+  design_ref="DESIGN.md §3 C11, §2 G/L2/A1/A3/E"),
 }
 
 NOT_YET = "check not built yet in this revision (see DESIGN.md §7 order of work); not claimed until it exists"
